@@ -340,12 +340,39 @@ theorem simplifyCast_sum_ok {e : Expr} {r : List Var} (he : Clean e) :
 /-! ### canonicalize -/
 
 mutual
+theorem cleanList_flattenExprs : ∀ (es : List Expr), CleanList es → CleanList (flattenExprs es)
+  | [], _ => by simp [flattenExprs, CleanList]
+  | e :: es, h => by
+    simp only [flattenExprs]
+    exact cleanList_append (cleanList_flattenExpr e h.1) (cleanList_flattenExprs es h.2)
+theorem cleanList_flattenExpr : ∀ (e : Expr), Clean e → CleanList (flattenExpr e)
+  | .prod gs, h => by simp only [flattenExpr]; exact cleanList_flattenExprs gs h
+  | .prob _ _ _, h => by simp only [flattenExpr]; exact ⟨h, trivial⟩
+  | .sum _ _, h => by simp only [flattenExpr]; exact ⟨h, trivial⟩
+  | .frac _ _, h => by simp only [flattenExpr]; exact ⟨h, trivial⟩
+  | .one, h => by simp only [flattenExpr]; exact ⟨h, trivial⟩
+  | .zero, h => by simp only [flattenExpr]; exact ⟨h, trivial⟩
+  | .q _ _, h => by simp only [flattenExpr]; exact ⟨h, trivial⟩
+end
+
+theorem clean_postFrac {e : Expr} (h : Clean e) : Clean (postFrac e) := by
+  unfold postFrac
+  split
+  · split
+    · exact h.1
+    · split
+      · trivial
+      · exact h
+  · exact h
+
+mutual
 theorem canon_ok : ∀ (e : Expr), Clean e → ∃ e', canon e = .ok e' ∧ Clean e'
   | .prob (some pop) c p, _ => ⟨.prob (some pop) (sortByName c) (sortByName p), by simp [canon], trivial⟩
   | .prob none _ _, h => h.elim
   | .prod fs, h => by
     obtain ⟨es, hes, ces⟩ := canonFlat_ok fs h
-    exact ⟨productSafe es, by simp [canon, hes, bind, Except.bind, pure, Except.pure], clean_productSafe ces⟩
+    exact ⟨productSafe (flattenExprs es), by simp [canon, hes, bind, Except.bind, pure, Except.pure],
+      clean_productSafe (cleanList_flattenExprs es ces)⟩
   | .sum x r, h => by
     obtain ⟨x', hx', cx'⟩ := canon_ok x h
     exact ⟨sumSafe x' r true, by simp [canon, hx', bind, Except.bind, pure, Except.pure], clean_sumSafe true cx'⟩
@@ -357,7 +384,9 @@ theorem canon_ok : ∀ (e : Expr), Clean e → ∃ e', canon e = .ok e' ∧ Clea
     · exact ⟨_, rfl, cn'⟩
     · split
       · exact ⟨_, rfl, clean_one⟩
-      · exact truediv_ok cn' cd'
+      · obtain ⟨rv, hrv, crv⟩ := truediv_ok cn' cd'
+        rw [hrv]
+        exact ⟨_, rfl, clean_postFrac crv⟩
   | .one, _ => ⟨.one, by simp [canon], trivial⟩
   | .zero, h => h.elim
   | .q _ _, h => h.elim
